@@ -318,8 +318,8 @@ Proof.
   rewrite (nth_error_nth' vals 0%Z) by lia. reflexivity.
 Qed.
 
-Ltac open_case HI Hown Hpc M HG HT Hc Hp :=
-  intro M; change (misuse _ = false) in M; destruct (HI M) as [HG HT]; destruct (Hown M) as [Hc Hp];
+Ltac open_case s HI Hown Hpc M HG HT Hc Hp :=
+  intro M; change (misuse s = false) in M; destruct (HI M) as [HG HT]; destruct (Hown M) as [Hc Hp];
   unfold pc_inv in Hp; rewrite Hpc in Hp; cbn [cons_pos] in Hp.
 
 Lemma step_inv : forall s t s', Inv s -> step s t = Some s' -> Inv s'.
@@ -336,8 +336,8 @@ Proof.
   - (* XStore *) admit.
   - (* CClosed *)
     cbv zeta in Hs. destruct (Z.eqb_spec (status_of (wordat s i)) closed_test) as [Ec|Ec]; injection Hs as <-;
-      open_case HI Hown Hpc M HG HT Hc Hp; destruct Hp as [He Hp];
-      refine (finish_case s _ t th _ HG HT Hth eq_refl (stable_refl _ _) HG _).
+      open_case s HI Hown Hpc M HG HT Hc Hp; destruct Hp as [He Hp];
+      refine (finish_case s s t th _ HG HT Hth eq_refl (stable_refl _ _) HG _).
     + split; [exact Hc|]. unfold pc_inv. cbn [tpc goto]. split; [exact He|]. intro E. destruct (Hp E) as (B1 & B2 & B3).
       replace (b + (i - b)) with i by lia. repeat split; auto; try discriminate.
       intros _. destruct HG as (_ & _ & _ & G4). apply G4. exact Ec.
@@ -345,8 +345,8 @@ Proof.
   - (* CPub *)
     cbv zeta in Hs. destruct (Z.eqb_spec (status_of (wordat s i)) published_test) as [Ec|Ec];
       [destruct (Nat.eqb_spec (S i) e) as [Ee|Ee]|]; injection Hs as <-;
-      open_case HI Hown Hpc M HG HT Hc Hp; destruct Hp as [He Hp];
-      refine (finish_case s _ t th _ HG HT Hth eq_refl (stable_refl _ _) HG _).
+      open_case s HI Hown Hpc M HG HT Hc Hp; destruct Hp as [He Hp];
+      refine (finish_case s s t th _ HG HT Hth eq_refl (stable_refl _ _) HG _).
     + split; [exact Hc|]. unfold pc_inv. cbn [tpc goto]. split; [exact He|]. intro E. destruct (Hp E) as (B1 & B2 & B3).
       replace (b + (S i - b)) with (S i) by lia. repeat split; auto; try discriminate; try lia.
       intros j Hj. destruct (Nat.eq_dec j i) as [->|]; [exact Ec | apply B3; lia].
@@ -355,18 +355,18 @@ Proof.
     + eapply tinv_goto_cons; eauto; reflexivity.
   - (* CReady *)
     cbv zeta in Hs. destruct (ready_fast _); injection Hs as <-;
-      open_case HI Hown Hpc M HG HT Hc Hp; destruct Hp as [He Hp];
-      refine (finish_case s _ t th _ HG HT Hth eq_refl (stable_refl _ _) HG _).
+      open_case s HI Hown Hpc M HG HT Hc Hp; destruct Hp as [He Hp];
+      refine (finish_case s s t th _ HG HT Hth eq_refl (stable_refl _ _) HG _).
     + eapply tinv_goto_cons; eauto; reflexivity.
     + apply tinv_goto_slow; auto.
   - (* CCas *) admit.
   - (* CWait *)
     destruct (Z.eqb _ _); injection Hs as <-;
-      open_case HI Hown Hpc M HG HT Hc Hp; destruct Hp as [He Hp];
-      refine (finish_case s _ t th _ HG HT Hth eq_refl (stable_refl _ _) HG _); eapply tinv_goto_cons; eauto; reflexivity.
+      open_case s HI Hown Hpc M HG HT Hc Hp; destruct Hp as [He Hp];
+      refine (finish_case s s t th _ HG HT Hth eq_refl (stable_refl _ _) HG _); eapply tinv_goto_cons; eauto; reflexivity.
   - (* CBlocked *) discriminate.
   - (* CReload *)
-    injection Hs as <-. open_case HI Hown Hpc M HG HT Hc Hp; destruct Hp as [He Hp].
-    refine (finish_case s _ t th _ HG HT Hth eq_refl (stable_refl _ _) HG _). apply tinv_goto_slow; auto.
+    injection Hs as <-. open_case s HI Hown Hpc M HG HT Hc Hp; destruct Hp as [He Hp].
+    refine (finish_case s s t th _ HG HT Hth eq_refl (stable_refl _ _) HG _). apply tinv_goto_slow; auto.
   - (* CHand *) admit.
 Admitted.
